@@ -22,13 +22,17 @@ RULE = (
     "referenced columns, evaluation on a row restricted to it must succeed with the same value (iteration engine "
     "callable and independent interpreter), and the set must be unchanged after later library calls.  Non-trivial = "
     "contains a logical operator, literal or container; distinct = operator-shape strings."
+    "  The grid also holds 2**53+1 (where int and float arithmetic differ); 30 % of the numeric literals are floats "
+    "or bools equal to the integer drawn; for half of the cases a look-alike (literals replaced by equal values of "
+    "another type, hence an expression that compares and hashes equal) is put through the same library calls first. "
 )
 ASSUMPTIONS = [
-    "rows range over the integer grid [-2,2]^k: equivalence of predicates is decided on that grid only",
+    "rows range over the grid ([-2,2] + {2**53+1})^k: equivalence of predicates is decided on that grid only",
     "direct evaluation by vmon/interp.py (independent of both engines) and by iteration.Engine.convert_predicate",
 ]
-MIN_OBS = {"subexpression_required_columns_checked": 5000, "trivial_true_or_false": 100, "flatten_false": 20, "flatten_lists": 300, "selection_checked": 300, "merged_selections_checked": 300, "restricted_rows_evaluated": 1000}
-GRID = list(range(-2, 3))
+MIN_OBS = {"subexpression_required_columns_checked": 5000, "lookalike_handled_first": 1000, "trivial_true_or_false": 100, "flatten_false": 20, "flatten_lists": 300, "selection_checked": 300, "merged_selections_checked": 300, "restricted_rows_evaluated": 1000}
+BIG = 2**53 + 1  # int and float arithmetic differ here: BIG + 1 != BIG + 1.0
+GRID = list(range(-2, 3)) + [BIG]
 COLS = ["a", "b", "c"]
 _state: dict = {}
 
@@ -65,6 +69,19 @@ def gen_lit_heavy(rng, cols, d):
 
 
 def gen_case(rng, tier):
+    exprs.LIT_KINDS = 0.3
+    case = _gen_case(rng, tier)
+    if rng.random() < 0.5:
+        # a look-alike (literals replaced by numerically equal values of another type) that the
+        # library is made to handle FIRST: nothing it remembers about one predicate may be served
+        # for another one that merely compares equal
+        twin = exprs.reflavour(case["ast"], rng)
+        if twin != case["ast"] or repr(twin) != repr(case["ast"]):
+            case["twin"] = twin
+    return case
+
+
+def _gen_case(rng, tier):
     d = rng.choice([1, 2, 3]) if tier == "quick" else rng.choice([2, 3, 4])
     k = rng.choice([1, 2, 2, 3])
     cols = COLS[:k]
@@ -91,6 +108,18 @@ def run_case(case):
     def viol(kind_, detail):
         out["violations"].append({"kind": kind_, "detail": f"{label}: {detail}"})
 
+    if case.get("twin") is not None:
+        try:
+            tw = exprs.elib(case["twin"]) if kind == "expr" else exprs.plib(case["twin"])
+            tw.columns_required  # noqa: B018
+            (ite.convert_column_expression if kind == "expr" else ite.convert_predicate)(tw)
+            if kind == "pred":
+                tw.as_trivial()
+                R.flatten_logical_and(tw)
+                R.Selection(tw)
+            c["lookalike_handled_first"] = 1
+        except Exception as exc:  # noqa: BLE001
+            viol("lookalike_raised", exc_str(exc))
     try:
         lib = exprs.elib(ast) if kind == "expr" else exprs.plib(ast)
     except Exception as exc:  # noqa: BLE001
@@ -99,7 +128,7 @@ def run_case(case):
     ev = interp.eval_expr if kind == "expr" else interp.eval_pred
     truth = [ev(lib, r) for r in rows]
     direct = [exprs.ev(ast, {t.qualified_name: v for t, v in r.items()}) if kind == "expr" else exprs.pv(ast, {t.qualified_name: v for t, v in r.items()}) for r in rows]
-    if [int(x) for x in truth] != [int(x) for x in direct]:
+    if ([int(x) for x in truth] != [int(x) for x in direct]) if kind == "pred" else (truth != direct):
         viol("ORACLE-SUSPECT", "AST evaluation and library-object interpreter disagree")
         return out
 
